@@ -49,7 +49,7 @@ CLAUSES = {
         "`matchPat` is tied to CPython `re` by the correspondence stream)",
 }
 PARALLEL = True
-CASE_TIMEOUT = 20
+CASE_TIMEOUT = 120
 LEVEL_NOTE = "regex engine is a parameter; Lean-defined matcher for the reversible fragment compared with CPython re on every case"
 
 LIT_ALPHA = "/ab-._%~+"
